@@ -43,21 +43,23 @@ func TestReplay(t *testing.T) { ev.RunReplay(t, judges) }
 // is active when it is listed here OR in /verif/known_findings.json (open).
 // VERIF_NO_EXCLUDE=1 disables all of them.
 var localKnownTags = map[string]bool{
-	"c09-folded-constant-in-emit-range":                  true, // C09-1
-	"c09-abstract-literal-times-matrix":                  true, // C09-2
-	"c09-const-composite-access-folds-to-flat-scalar":    true, // C09-3
-	"c09-exprtype-dropped-by-compact-types":              true, // C09-4
-	"c09-stale-exprtype-after-concretize":                true, // C09-5
-	"c09-atomicstore-value-emitted-after-store":          true, // C09-6
-	"c09-swizzle-of-pointer-param-without-load":          true, // C09-7
-	"c09-math-transpose-determinant-type":                true, // C09-8
-	"c09-compound-assign-through-pointer-param":          true, // C09-9
-	"c09-const-matrix-arithmetic-folds-to-vector":        true, // C09-10
-	"c09-extractbits-abstract-arg-typed-u32":             true, // C09-11
-	"c09-bitcast-of-abstract-literal":                    true, // C09-12
-	"c09-validate-duplicate-binding-across-entry-points": true, // C09-13
-	"c09-abstract-splat-not-concretized":                 true, // C09-14
-	"c09-folded-abstract-vector-picks-first-vecn-type":   true, // C09-15
+	"c09-folded-constant-in-emit-range":                    true, // C09-1
+	"c09-abstract-literal-times-matrix":                    true, // C09-2
+	"c09-const-composite-access-folds-to-flat-scalar":      true, // C09-3
+	"c09-exprtype-dropped-by-compact-types":                true, // C09-4
+	"c09-stale-exprtype-after-concretize":                  true, // C09-5
+	"c09-atomicstore-value-emitted-after-store":            true, // C09-6
+	"c09-swizzle-of-pointer-param-without-load":            true, // C09-7
+	"c09-math-transpose-determinant-type":                  true, // C09-8
+	"c09-compound-assign-through-pointer-param":            true, // C09-9
+	"c09-const-matrix-arithmetic-folds-to-vector":          true, // C09-10
+	"c09-extractbits-abstract-arg-typed-u32":               true, // C09-11
+	"c09-bitcast-of-abstract-literal":                      true, // C09-12
+	"c09-validate-duplicate-binding-across-entry-points":   true, // C09-13
+	"c09-abstract-splat-not-concretized":                   true, // C09-14
+	"c09-folded-abstract-vector-picks-first-vecn-type":     true, // C09-15
+	"c09-global-expr-type-handle-dropped-by-compact-types": true, // C09-16
+	"c09-const-splat-as-single-component-compose":          true, // C09-17
 }
 
 func excluded(tag string) bool {
@@ -375,6 +377,13 @@ func typeInArena(m *ir.Module, in ir.TypeInner) bool {
 
 // matchKnown returns the tag of the known finding whose shape the issue has ("" if none).
 func matchKnown(m *ir.Module, is irx.Issue) string {
+	// C09-16: a module-scope constant built from nested vector constructors: the inner
+	// vector type is used by nothing else, CompactTypes removes it and leaves the
+	// sentinel handle 0xFFFFFFFF in the GlobalExpressions Compose.
+	if is.Rule == irx.RuleHandleRange && strings.HasPrefix(is.Where, "global expression [") &&
+		strings.Contains(is.Msg, "type handle 4294967295 out of range") {
+		return "c09-global-expr-type-handle-dropped-by-compact-types"
+	}
 	kind := exprKind(is, is.Expr)
 	if is.Fn != nil && is.Expr >= 0 {
 		switch is.Rule {
@@ -673,6 +682,13 @@ func cascadeShape(m *ir.Module, is irx.Issue) string {
 					}
 					if all {
 						tag = "c09-const-matrix-arithmetic-folds-to-vector"
+					}
+				}
+				// C09-17: vecN(<scalar>) inside a module-scope const is kept as a Compose with ONE
+				// component (and deep-copied like that into functions) instead of a Splat.
+				if vt, ok := m.Types[k.Type].Inner.(ir.VectorType); ok && len(k.Components) == 1 && vt.Size > 1 {
+					if _, isLit := f.Expressions[k.Components[0]].Kind.(ir.Literal); isLit {
+						tag = "c09-const-splat-as-single-component-compose"
 					}
 				}
 			}
